@@ -1126,7 +1126,11 @@ func runCloseMulti(t *testing.T, prop string) {
 		}
 		if f == nil {
 			if g := x.checkC10(true); g != nil {
-				f = fail(prop, "lifetime-rules", g.Oracle+"/"+g.Sig, "%s", g.Msg)
+				orc := "lifetime-rules"
+				if prop == "C12" {
+					orc = "closes-everything-it-owns"
+				}
+				f = fail(prop, orc, g.Oracle+"/"+g.Sig, "%s", g.Msg)
 			}
 		}
 		closerParked := len(c.Threads) > 0 && c.Threads[len(c.Threads)-1].pk != nil && c.Threads[len(c.Threads)-1].pk.WasHit()
@@ -1147,6 +1151,10 @@ func TestC13MultiSchedules(t *testing.T) { runCloseMulti(t, "C13") }
 // TestC09CloseSchedules: the same programs as C09 sees them - every individual call returns a
 // result that respects the lifetime rules or one of the documented errors.
 func TestC09CloseSchedules(t *testing.T) { runCloseMulti(t, "C09") }
+
+// TestC12CloseSchedules: the same programs seen from the Close: what the scope owns when all
+// is over - also what was constructed while its disposal was under way - has been closed, once.
+func TestC12CloseSchedules(t *testing.T) { runCloseMulti(t, "C12") }
 
 // TestC11MultiSchedules: resolutions that overlap the Close of their scope, seen from the
 // order rule: whatever arrives late, no dependency is closed while something that holds it
